@@ -123,9 +123,11 @@ def _cfgs(tier):
 def _io_fused(plan):
     from dask_expr.io.io import FusedIO
 
+    from dask_expr._expr import Fused
+
     def walk(e):
         yield e
-        for sub in getattr(e, "exprs", None) or []:
+        for sub in (e.exprs if isinstance(e, Fused) else []):
             yield from walk(sub)
         for d in e.dependencies():
             yield from walk(d)
